@@ -30,16 +30,34 @@ import (
 )
 
 type c04shape struct {
-	Rules    int  `json:"rules"`
-	WhenN    int  `json:"when_bindings"`
-	Cond     int  `json:"condition"` // -1 none, else number of matching facts (0,1,2)
-	Actions  int  `json:"actions"`   // 1, 2, 3 = two actions the first of which throws
-	Serial   bool `json:"serialActions"`
-	State    string `json:"state"`
+	Rules   int  `json:"rules"`
+	WhenN   int  `json:"when_bindings"`
+	Cond    int  `json:"condition"` // -1 none, else number of matching facts (0,1,2)
+	Actions int  `json:"actions"`   // 1, 2, 3 = two actions the first of which throws
+	Serial  bool `json:"serialActions"`
+	// Mixed (two rules): 1 = only r1 has serialActions, 2 = only r2 has it
+	Mixed int    `json:"mixed_policies"`
+	State string `json:"state"`
 }
 
 func (s c04shape) String() string {
-	return fmt.Sprintf("rules=%d when=%d cond=%d actions=%d serial=%v %s", s.Rules, s.WhenN, s.Cond, s.Actions, s.Serial, s.State)
+	ser := fmt.Sprint(s.Serial)
+	if s.Mixed == 1 {
+		ser = "r1-only"
+	} else if s.Mixed == 2 {
+		ser = "r2-only"
+	}
+	return fmt.Sprintf("rules=%d when=%d cond=%d actions=%d serial=%s %s", s.Rules, s.WhenN, s.Cond, s.Actions, ser, s.State)
+}
+
+func (s c04shape) serialFor(r int) bool {
+	switch s.Mixed {
+	case 1:
+		return r == 0
+	case 2:
+		return r == 1
+	}
+	return s.Serial
 }
 
 // recorder is the App: it installs rec() into every JavaScript runtime.
@@ -48,7 +66,7 @@ type c04app struct {
 	recs []string
 }
 
-func (a *c04app) GenerateHeaders(ctx *core.Context) map[string]string { return nil }
+func (a *c04app) GenerateHeaders(ctx *core.Context) map[string]string               { return nil }
 func (a *c04app) ProcessBindings(ctx *core.Context, bs core.Bindings) core.Bindings { return bs }
 func (a *c04app) ProcessQuery(ctx *core.Context, raw map[string]interface{}, q core.Query) core.Query {
 	return q
@@ -111,10 +129,12 @@ func c04Build(sh c04shape) (*core.Context, *core.Location, *c04app, map[string]i
 		}
 		for a := 0; a < nact; a++ {
 			tag := fmt.Sprintf("%s-a%d", rid, a+1)
-			acts = append(acts, c04Action(tag, sh.Actions == 3 && a == 0))
+			// mixed policies: only the NON-serial rule has the throwing action
+			throws := sh.Actions == 3 && a == 0 && !(sh.Mixed != 0 && sh.serialFor(r))
+			acts = append(acts, c04Action(tag, throws))
 		}
 		rule["actions"] = acts
-		if sh.Serial {
+		if sh.serialFor(r) {
 			rule["policies"] = map[string]interface{}{"serialActions": true}
 		}
 		if _, err := loc.AddRule(ctx, rid, core.Map(rule)); err != nil {
@@ -184,7 +204,9 @@ func c04Scenario(sh c04shape, bound int) *lib.SchedScenario {
 			cond, _ := r.Data["cond"].(*core.Condition)
 			var vs []*lib.Violation
 			throwing := sh.Actions == 3
-			stopsEarly := throwing && sh.Serial // serialActions: the walk may stop at the failing action
+			// serialActions: the walk may stop at the failing action of a SERIAL rule (with
+			// mixed policies only the non-serial rule throws, so nothing may stop early)
+			stopsEarly := throwing && sh.Serial && sh.Mixed == 0
 			if !stopsEarly {
 				if strings.Join(recs, "\n") != strings.Join(expected, "\n") {
 					missing, extra := diffSets(expected, recs)
@@ -251,13 +273,20 @@ func c04Scenario(sh c04shape, bound int) *lib.SchedScenario {
 				if complete != len(expected) {
 					vs = append(vs, &lib.Violation{Signature: "C04/not-all-actions-complete", Summary: fmt.Sprintf("%s: %d of %d actions complete", name, complete, len(expected))})
 				}
-			} else if !sh.Serial {
+			} else if !sh.Serial || sh.Mixed != 0 {
 				// the failing action is reported on its own node; the others all completed
 				want := 0
 				for _, e := range expected {
-					if !strings.Contains(e, "-a1|") {
+					thrower := strings.Contains(e, "-a1|")
+					if sh.Mixed == 1 && strings.HasPrefix(e, "r1-") || sh.Mixed == 2 && strings.HasPrefix(e, "r2-") {
+						thrower = false // the serial rule's actions do not throw
+					}
+					if !thrower {
 						want++
 					}
+				}
+				if cond != nil {
+					vs = append(vs, &lib.Violation{Signature: "C04/failing-action-of-non-serial-rule-stops-the-event", Summary: fmt.Sprintf("%s: ProcessEvent stopped with %v although the failing action's rule did not ask for serial actions", name, cond)})
 				}
 				if complete != want {
 					vs = append(vs, &lib.Violation{Signature: "C04/failing-action-affects-others", Summary: fmt.Sprintf("%s: %d actions completed, expected %d (every execution of the non-throwing action)", name, complete, want)})
@@ -286,7 +315,11 @@ func c04Scenarios(tier string) []*lib.SchedScenario {
 							if tier == "quick" && state == "linear" && (rules == 2 || cond == 0) {
 								continue
 							}
-							scs = append(scs, c04Scenario(c04shape{rules, wn, cond, acts, serial, state}, bound))
+							scs = append(scs, c04Scenario(c04shape{rules, wn, cond, acts, serial, 0, state}, bound))
+							if rules == 2 && serial && cond != 0 {
+								scs = append(scs, c04Scenario(c04shape{rules, wn, cond, acts, false, 1, state}, bound))
+								scs = append(scs, c04Scenario(c04shape{rules, wn, cond, acts, false, 2, state}, bound))
+							}
 						}
 					}
 				}
@@ -300,7 +333,7 @@ func init() {
 	lib.Register(&lib.Check{
 		ID:    "C04",
 		Level: "model_checking",
-		Rule: "all shapes {1..2 rules} x {1,2 when-bindings} x {no condition, condition yielding 0/1/2 bindings} x {1 action, 2 actions, 2 actions the first throwing} x serialActions off/on x state, each event processed under the controlled scheduler with deviation bound 1 (quick) / 2 (thorough); oracle: recorded executions (tag + visible variables) = expected multiset, work tree nodes, Values, dispositions, no deadlock/panic/happens-before race; " +
+		Rule: "all shapes {1..2 rules} x {1,2 when-bindings} x {no condition, condition yielding 0/1/2 bindings} x {1 action, 2 actions, 2 actions the first throwing} x serialActions off/on/only-r1/only-r2 x state, each event processed under the controlled scheduler with deviation bound 1 (quick) / 2 (thorough); oracle: recorded executions (tag + visible variables) = expected multiset, work tree nodes, Values, dispositions, no deadlock/panic/happens-before race; " +
 			"states = distinct observed outcomes, traces = schedules executed; non-trivial = distinct (shape, outcome)",
 		Assumptions: []string{
 			"actions come from one template family that reports the candidate variables x,y,e,event,location,ruleId,z it can see",
